@@ -37,6 +37,8 @@ struct LFile {
     origin: Vec<u8>,
     class: u16,
     recs: Vec<LRec>,
+    /// $INCLUDE directives: (in front of record number, path, origin)
+    includes: Vec<(usize, Vec<u8>, Option<Vec<u8>>)>,
 }
 
 fn child(rng: &mut Rng, origin: &[u8]) -> Vec<u8> {
@@ -242,7 +244,17 @@ fn gen_file(rng: &mut Rng) -> LFile {
         }
         recs.push(gen_rec(rng, &origin, owner.clone()));
     }
-    LFile { origin, class, recs }
+    let mut includes = Vec::new();
+    if rng.chance(1, 4) {
+        for _ in 0..rng.range(1, 2) {
+            let l = rng.range(1, 12);
+            let path: Vec<u8> = (0..l).map(|_| *rng.pick(b"abcxyz019/._- \";()@$#")).collect();
+            let o = if rng.chance(1, 3) { Some(names::from_labels(&[names::small_label(rng), b"example".to_vec()])) } else { None };
+            includes.push((rng.below(recs.len() + 1), path, o));
+        }
+        includes.sort_by_key(|x| x.0);
+    }
+    LFile { origin, class, recs, includes }
 }
 
 // ------------------------------------------------------ layout engine --
@@ -354,7 +366,40 @@ fn render(rng: &mut Rng, f: &LFile, k: &Knobs) -> Vec<u8> {
     let mut last_owner: Option<Vec<u8>> = None;
     let mut last_ttl: Option<u32> = None;
     let mut class_stated = false;
+    let include_line = |rng: &mut Rng, path: &[u8], o: &Option<Vec<u8>>| -> String {
+        // (a path is text, not octets: decimal escapes are not characters for `Symbol::into_char`,
+        // so only quoting and backslash-character escapes are varied)
+        let quoted = path.is_empty() || rng.bool();
+        let mut pt = String::new();
+        if quoted {
+            pt.push('"');
+        }
+        for &ch in path {
+            let special = ch == b'"' || ch == b'\\' || (!quoted && matches!(ch, b' ' | b';' | b'(' | b')' | b'@' | b'$' | b'#'));
+            if special || (!ch.is_ascii_digit() && rng.chance(1, 8) && !(quoted && ch == b'#')) {
+                pt.push('\\');
+            }
+            pt.push(ch as char);
+        }
+        if quoted {
+            pt.push('"');
+        }
+        let mut l = format!("{} {}", kw("$INCLUDE"), pt);
+        if let Some(o) = o {
+            l.push(' ');
+            l.push_str(&names::presentation(rng, o, true));
+        }
+        if k.comments && rng.chance(1, 2) {
+            l.push_str(" ; included");
+        }
+        l
+    };
     for (ri, r) in f.recs.iter().enumerate() {
+        for (_, path, o) in f.includes.iter().filter(|x| x.0 == ri) {
+            let l = include_line(rng, path, o);
+            out.push_str(&l);
+            out.push_str(nl);
+        }
         if k.blank_lines && rng.chance(1, 2) {
             match rng.below(3) {
                 0 => out.push_str(nl),
@@ -438,7 +483,15 @@ fn render(rng: &mut Rng, f: &LFile, k: &Knobs) -> Vec<u8> {
         if k.comments && rng.bool() {
             out.push_str(if rng.bool() { " ; trailing comment ( \\" } else { ";trailing comment ( \\" });
         }
-        if ri + 1 < f.recs.len() || !k.no_final_newline {
+        if ri + 1 < f.recs.len() || !k.no_final_newline || f.includes.iter().any(|x| x.0 == f.recs.len()) {
+            out.push_str(nl);
+        }
+    }
+    let trailing: Vec<_> = f.includes.iter().filter(|x| x.0 == f.recs.len()).collect();
+    for (i, (_, path, o)) in trailing.iter().enumerate() {
+        let l = include_line(rng, path, o);
+        out.push_str(&l);
+        if i + 1 < trailing.len() || !k.no_final_newline {
             out.push_str(nl);
         }
     }
@@ -470,7 +523,17 @@ fn knob_vector(rng: &mut Rng, variant: usize) -> Knobs {
 type Parsed = Vec<(Vec<u8>, u16, u32, u16, Vec<u8>)>;
 
 fn logical(f: &LFile) -> Parsed {
-    f.recs.iter().map(|r| (r.owner.clone(), f.class, r.ttl, r.rtype, r.rdata.clone())).collect()
+    let mut out: Parsed = Vec::new();
+    for i in 0..=f.recs.len() {
+        for (_, path, o) in f.includes.iter().filter(|x| x.0 == i) {
+            // (read_zonefile's rendering of an Include entry)
+            out.push((o.clone().unwrap_or_default(), 0, 0, 0, path.clone()));
+        }
+        if let Some(r) = f.recs.get(i) {
+            out.push((r.owner.clone(), f.class, r.ttl, r.rtype, r.rdata.clone()));
+        }
+    }
+    out
 }
 
 fn metamorphic(c: &mut Ctx, fam: &str, idx: u64, rng: &mut Rng) {
@@ -621,6 +684,91 @@ fn entries_well_formed(text: &[u8], origin: Option<&[u8]>, allow_invalid: bool) 
     }
 }
 
+/// One raw octet that is not printable ASCII inside a name or a string: whether it is let
+/// through or refused must not depend on whether some *other* character of the same token is
+/// written as an escape (the reader has a fast path for tokens without escapes).
+fn raw_octet_case(c: &mut Ctx, fam: &str, idx: u64, rng: &mut Rng) {
+    let x: Vec<u8> = match rng.below(8) {
+        0 => vec![0x7f],
+        1 => vec![0x00],
+        2 => vec![*rng.pick(&[0x01u8, 0x08, 0x0b, 0x0c, 0x0e, 0x1b, 0x1f])],
+        3 => vec![0x80],
+        4 => vec![0xff],
+        5 => vec![0xc3, 0xa9],
+        6 => vec![0xe2, 0x9c, 0x93],
+        _ => vec![*rng.pick(&[0x7fu8, 0x7e, 0x21, 0xa0])],
+    };
+    let pre: Vec<u8> = (0..rng.range(1, 4)).map(|_| *rng.pick(b"abcxyz")).collect();
+    let post: Vec<u8> = (0..rng.range(1, 4)).map(|_| *rng.pick(b"abcxyz")).collect();
+    let esc = |b: &[u8], which: usize| -> Vec<u8> {
+        let mut v = Vec::new();
+        for (i, ch) in b.iter().enumerate() {
+            if i == which {
+                v.extend_from_slice(format!("\\{:03}", ch).as_bytes())
+            } else {
+                v.push(*ch)
+            }
+        }
+        v
+    };
+    let in_name = rng.bool();
+    let quoted = !in_name && rng.bool();
+    let tok = |pre: &[u8], post: &[u8]| -> Vec<u8> {
+        let mut t = Vec::new();
+        if quoted {
+            t.push(b'"')
+        }
+        t.extend_from_slice(pre);
+        t.extend_from_slice(&x);
+        t.extend_from_slice(post);
+        if quoted {
+            t.push(b'"')
+        }
+        t
+    };
+    let wb = rng.below(pre.len());
+    let wa = rng.below(post.len());
+    let variants: Vec<(&str, Vec<u8>)> = vec![("plain", tok(&pre, &post)), ("escape-before", tok(&esc(&pre, wb), &post)), ("escape-after", tok(&pre, &esc(&post, wa)))];
+    let mut verdicts: Vec<(&str, Result<Parsed, String>)> = Vec::new();
+    for (name, t) in &variants {
+        let mut text: Vec<u8> = Vec::new();
+        if in_name {
+            text.extend_from_slice(t);
+            text.extend_from_slice(b".example. 300 IN A 192.0.2.1\n");
+        } else {
+            text.extend_from_slice(b"t.example. 300 IN TXT ");
+            text.extend_from_slice(t);
+            text.push(b'\n');
+        }
+        match ctx::catch(|| read_zonefile(&text, None, false)) {
+            Ok(r) => verdicts.push((name, r.map_err(|e| e.split(':').last().unwrap_or("").trim().to_string()))),
+            Err(pi) => {
+                c.violation(&format!("panic:{}", pi.site()), &format!("panic reading a token with a raw octet: {} at {}:{}", pi.msg, pi.file, pi.line), c.replay_of(fam, idx, json!({"text": hex(&text)})));
+                return;
+            }
+        }
+    }
+    let first_ok = verdicts[0].1.is_ok();
+    for (name, v) in &verdicts[1..] {
+        if v.is_ok() != first_ok || (first_ok && v.as_ref().ok() != verdicts[0].1.as_ref().ok()) {
+            let cls = match x[0] {
+                0x7f => "DEL",
+                0x00..=0x1f => "control",
+                0x80..=0xff => "high",
+                _ => "printable",
+            };
+            c.violation(
+                &format!("layout-dependent:raw-octet:{}:{}", cls, if in_name { "name" } else if quoted { "quoted-string" } else { "string" }),
+                &format!("a token holding the raw octet(s) {} is {} when written without escapes and {} when another of its characters is written as an escape ({})", hex(&x), if first_ok { "accepted" } else { "refused" }, if v.is_ok() { "accepted" } else { "refused" }, name),
+                c.replay_of(fam, idx, json!({"token": hex(&variants[0].1), "variant": hex(&variants.iter().find(|t| t.0 == *name).unwrap().1)})),
+            );
+            return;
+        }
+    }
+    c.count(if first_ok { "raw_octet_tokens_accepted_either_way" } else { "raw_octet_tokens_refused_either_way" }, 1);
+    c.eval(&("raw-octet", x[0], in_name, quoted, first_ok));
+}
+
 fn hostile_one(c: &mut Ctx, fam: &str, idx: u64, text: &[u8], kind: &str) {
     ctx::slot_write(idx, &format!("{}|{}", fam, kind), text);
     let ex = || json!({"input_hex": hex(text), "kind": kind});
@@ -710,7 +858,7 @@ fn hostile_one(c: &mut Ctx, fam: &str, idx: u64, text: &[u8], kind: &str) {
 }
 
 pub fn run(c: &mut Ctx) {
-    c.families(2);
+    c.families(3);
     if let Some(r) = c.replay.clone() {
         if let Some(h) = r.get("extra").and_then(|e| e.get("input_hex")).and_then(|h| h.as_str()) {
             let t = unhex(h);
@@ -727,6 +875,15 @@ pub fn run(c: &mut Ctx) {
         }
         let mut rng = c.case_rng(fam, idx);
         metamorphic(c, fam, idx, &mut rng);
+    }
+    let fam = "raw-octet";
+    let total = c.total(40_000, 2_000_000);
+    for idx in c.cases(fam, total) {
+        if c.out_of_time() {
+            break;
+        }
+        let mut rng = c.case_rng(fam, idx);
+        raw_octet_case(c, fam, idx, &mut rng);
     }
     let fam = "hostile";
     let total = c.total(600_000, 40_000_000);
@@ -814,6 +971,7 @@ pub fn run(c: &mut Ctx) {
         c.floor("layout_variants_equal", 1000);
         c.floor("hostile_errors", 1000);
         c.floor("hostile_accepted", 100);
+        c.floor("raw_octet_tokens_refused_either_way", 100);
         for k in ["comments", "blank_lines", "parens", "tabs", "relative", "inherit_owner", "omit_ttl", "dollar_ttl", "omit_class", "class_first", "lower_keywords", "crlf", "no_final_newline", "reorigin"] {
             c.floor(&format!("knob_{}", k), 10);
         }
